@@ -144,7 +144,19 @@ func tweakOne(r *Rng, p *profile.Profile) string {
 			}
 		case 1:
 			if len(p.Function) > 0 {
-				p.Function[r.Intn(len(p.Function))].SystemName += "'"
+				f := p.Function[r.Intn(len(p.Function))]
+				switch r.Intn(4) { // relations between fields, not only fresh values
+				case 0:
+					f.SystemName = ""
+					return "function.systemName=empty"
+				case 1:
+					f.SystemName = f.Name
+					return "function.systemName=name"
+				case 2:
+					f.Filename = []string{"", f.Name, f.SystemName}[r.Intn(3)]
+					return "function.filename=relation"
+				}
+				f.SystemName += "'"
 				return "function.systemName"
 			}
 		case 2:
@@ -201,6 +213,14 @@ func tweakOne(r *Rng, p *profile.Profile) string {
 				m := p.Mapping[r.Intn(len(p.Mapping))]
 				switch r.Intn(6) {
 				case 0:
+					switch r.Intn(3) {
+					case 0:
+						m.BuildID = ""
+						return "mapping.buildID=empty"
+					case 1:
+						m.BuildID = m.File
+						return "mapping.buildID=file"
+					}
 					m.BuildID += "0"
 					return "mapping.buildID"
 				case 1:
